@@ -18,6 +18,10 @@ def gen(tier, rng, harness=None):
     lines = []
     for t in modprops.corpus_texts():
         lines.append("!mod.closure - %s" % hx(t))
+    from . import catalog as _c20
+    for _n, _t, _f in _c20.round20_entries():
+        if _n.startswith("diexpression."):
+            lines.append("!mod.keeps %s %s" % (hx("\x1f".join(_f)), hx(_t)))
     # type definitions whose body is another named type (`%a = type %b`) next to definitions that mention them: translated in map order, so each text is walked
     # twelve times — every use of a named type is an object the module lists, under every order
     for t in ("%a = type %b\n%b = type { i32 }\n%c = type { %a }\n@g = global %c zeroinitializer\n@h = global %a zeroinitializer\n",
